@@ -98,6 +98,7 @@ var loopback = net.IPv4(127, 0, 0, 1)
 type segment struct {
 	n     int
 	pause bool
+	long  bool
 }
 
 func parseSegs(s string) []segment {
@@ -106,12 +107,14 @@ func parseSegs(s string) []segment {
 	}
 	var out []segment
 	for _, t := range strings.Split(s, ",") {
+		long := strings.HasSuffix(t, "P") // a pause of seconds: longer than any I/O timeout a transport might set itself
+		t = strings.TrimSuffix(t, "P")
 		p := strings.HasSuffix(t, "p")
 		n, err := strconv.Atoi(strings.TrimSuffix(t, "p"))
 		if err != nil || n < 0 {
 			panic("harness: bad segmentation token " + t)
 		}
-		out = append(out, segment{n, p})
+		out = append(out, segment{n, p, long})
 	}
 	return out
 }
@@ -169,6 +172,9 @@ func c11Recv(a []string) string {
 				}
 				if sg.pause {
 					time.Sleep(300 * time.Microsecond)
+				}
+				if sg.long {
+					time.Sleep(6500 * time.Millisecond)
 				}
 			}
 			if len(rest) > 0 {
@@ -566,6 +572,23 @@ func genC11(r *Rng, tier string) []Case {
 			s = []string{hx(stream), seg, "?", "0"}
 		}
 		cs = append(cs, Case{Op: "c11.recv", MArgs: m, SArgs: s, Tag: tag})
+	}
+	// a stream that stalls for seconds in the middle of a frame (a slow or congested peer) is still the same stream:
+	// the frame arrives whole, and what follows it is framed as before
+	{
+		inner := append(append(bytesRepeat('A', 20), 0, 0, 0, 3, 'a', 'b', 'c'), bytesRepeat('Z', 13)...)
+		ps := [][]byte{inner, []byte("after")}
+		var stream []byte
+		for _, p := range ps {
+			stream = append(stream, rfcFrame(p)...)
+		}
+		for _, at := range []int{24, 2} { // inside the body, inside the header
+			if !thorough && at == 2 {
+				continue
+			}
+			seg := strconv.Itoa(at) + "P"
+			cs = append(cs, Case{Op: "c11.recv", MArgs: []string{hx(stream), seg}, SArgs: []string{hx(stream), seg, msgsTok(ps), strconv.Itoa(len(stream))}, Tag: "recv.stalled-mid-frame"})
+		}
 	}
 	concat := func(ps [][]byte) []byte {
 		var b []byte
